@@ -14,7 +14,7 @@ func init() {
 	register(&propertyDef{
 		id:    "C20",
 		title: "the engine API classifies results and resolves files consistently",
-		rules: []ruleFunc{c20R1, c20R2, c20R3, c20R4, c20R5, c20R6, c20R7, c20R8, c20R9, c20R10, c20R11},
+		rules: []ruleFunc{c20R1, c20R2, c20R3, c20R4, c20R5, c20R6, c20R7, c20R8, c20R9, c20R10, c20R11, c20R12},
 		decided: "engineWorkflow.Run flags the result with OutputSchema()[id].Error() of the very id Execute returned, and every error return carries the flag true (R1); infer.OutputSchema derives the error flag from `outputID == \"error\"` only when no explicit schema was given and returns an explicit schema unchanged (R2); " +
 			"the exit-code table of the command-line tool: parse error 1, run error 3, error output 2, otherwise 0 (R3); file access in the engine is confined to loadfile.LoadContext, the readFile built-in and cmd/*, and relative names are joined with the absolute context directory (R4); " +
 			"RunWorkflow = Parse then Run on the same context and file name, the default workflow file name is workflow.yaml (R5). The declared output schema object itself reaches infer.OutputSchema (R7); parsing/preparing keeps no state between calls (R8 = C10.R5).",
@@ -744,4 +744,155 @@ func c20R11(c *Ctx) {
 		})
 	}
 	c.minCount(rule, "calls of MergeFileCaches", n, 2)
+}
+
+// passedUnchanged: v is src itself, possibly boxed / converted between named and unnamed forms, but not the result of any
+// further call or computation.
+func passedUnchanged(v ssa.Value, isSrc func(ssa.Value) bool) bool {
+	for d := 0; d < 6; d++ {
+		if isSrc(v) {
+			return true
+		}
+		switch x := v.(type) {
+		case *ssa.MakeInterface:
+			v = x.X
+		case *ssa.ChangeType:
+			v = x.X
+		case *ssa.ChangeInterface:
+			v = x.X
+		case *ssa.UnOp:
+			// a local cell with one store
+			if x.Op != token.MUL {
+				return false
+			}
+			al, ok := x.X.(*ssa.Alloc)
+			if !ok {
+				return false
+			}
+			sv := soleStore(al)
+			if sv == nil {
+				return false
+			}
+			v = sv
+		case *ssa.Phi:
+			// all edges unchanged
+			for _, e := range x.Edges {
+				if !passedUnchanged(e, isSrc) {
+					return false
+				}
+			}
+			return true
+		default:
+			return false
+		}
+	}
+	return false
+}
+
+// C20.R12 what is read from the context directory is what the engine works on.
+func c20R12(c *Ctx) {
+	const rule = "C20.R12"
+	c.explain("C20.R12 on the way from the context directory to the parser nothing is rewritten: the content stored for a context file is the result of os.ReadFile as it is (a trimmed trailing line break changes a block scalar that ends the file), and the root directory the sub-workflow collection builds its caches on is the RootDir() of the caller's cache as it is (a root that is spelled differently — symlinks resolved, cleaned — is refused by the merge as a different root)")
+	n := 0
+	// (a) ContextFile.Content
+	contentF := c.field(repoModule+"/loadfile", "ContextFile", "Content")
+	if contentF != nil {
+		for _, fn := range c.RepoFns {
+			if c.excluded(fn) || !strings.HasSuffix(pkgPathOf(fn), "/loadfile") {
+				continue
+			}
+			reads := false
+			eachInstr(fn, func(r instrRef) {
+				if cc := callCommon(r.I); cc != nil && calleeName(cc) == "os.ReadFile" {
+					reads = true
+				}
+			})
+			if !reads {
+				continue
+			}
+			k := 0
+			eachInstr(fn, func(r instrRef) {
+				st, ok := r.I.(*ssa.Store)
+				if !ok {
+					return
+				}
+				fa, ok := st.Addr.(*ssa.FieldAddr)
+				if !ok || fieldAddrVar(fa) != contentF {
+					return
+				}
+				n++
+				k++
+				okc := passedUnchanged(st.Val, func(v ssa.Value) bool {
+					ex, ok := v.(*ssa.Extract)
+					if !ok || ex.Index != 0 {
+						return false
+					}
+					call, ok := ex.Tuple.(*ssa.Call)
+					return ok && calleeName(call.Common()) == "os.ReadFile"
+				})
+				c.verdict(okc, rule, fmt.Sprintf("content@%s#%d", c.fnName(fn), k), c.instrPos(st), "the stored content is what os.ReadFile returned", "the content of a context file is rewritten between os.ReadFile and the file cache: running a workflow from disk no longer gives what preparing the same text gives")
+			})
+		}
+	}
+	// (b) the root directory of the sub-workflow collection
+	collect := c.FnOpt("engine.collectSubworkflowCache")
+	if collect != nil {
+		for _, st := range c.CG().callers[collect] {
+			caller := st.Instr.Parent()
+			if caller == nil || caller == collect || c.excluded(caller) {
+				continue
+			}
+			cc := callCommon(st.Instr)
+			if cc == nil {
+				continue
+			}
+			for ai, a := range cc.Args {
+				if ai >= len(collect.Params) || collect.Params[ai].Type().String() != "string" {
+					continue
+				}
+				n++
+				var isRoot func(d int) func(v ssa.Value) bool
+				isRoot = func(d int) func(v ssa.Value) bool {
+					return func(v ssa.Value) bool {
+						if call, ok := v.(*ssa.Call); ok && call.Common().IsInvoke() && call.Common().Method.Name() == "RootDir" {
+							return true
+						}
+						// a parameter that every caller fills with the root as it is (the exported SubworkflowCache passes
+						// its own parameter on)
+						p, ok := v.(*ssa.Parameter)
+						if !ok || d > 2 {
+							return false
+						}
+						f := p.Parent()
+						idx := -1
+						for k, fp := range f.Params {
+							if fp == p {
+								idx = k
+							}
+						}
+						sites := c.CG().callers[f]
+						nSites := 0
+						for _, s2 := range sites {
+							g := s2.Instr.Parent()
+							if g == nil || c.excluded(g) {
+								continue
+							}
+							cc2 := callCommon(s2.Instr)
+							if cc2 == nil || idx < 0 || idx >= len(cc2.Args) {
+								return false
+							}
+							nSites++
+							if !passedUnchanged(cc2.Args[idx], isRoot(d+1)) {
+								return false
+							}
+						}
+						return nSites > 0
+					}
+				}
+				okc := passedUnchanged(a, isRoot(0))
+				c.verdict(okc, rule, "root-dir@"+c.fnName(caller), c.instrPos(st.Instr), "the collection starts from the RootDir() of the caller's cache as it is", "the root directory handed to the sub-workflow collection is not the caller cache's RootDir() as it is: caches built on a differently spelled root are refused by the merge (`file caches have different root directory`), so whether a tree loads depends on how the context directory was reached")
+			}
+		}
+	}
+	c.minCount(rule, "unchanged hand-overs on the file path", n, 2)
 }
